@@ -347,7 +347,8 @@ BodyBase(ep, shape) ==
        [] shape = "mixedtwo" -> [kind |-> "xml", root |-> root, els |-> << El(k, "101", "") >> \o Others(k) \o << El(k, "2147483649", "") >>]
        [] shape = "garbage"  -> [kind |-> "garbage", root |-> root, els |-> << >>]
        [] shape = "empty"    -> [kind |-> "empty", root |-> root, els |-> << >>]
-       [] shape = "trunc"    -> [kind |-> "trunc", root |-> root, els |-> << El(k, "101", "") >>]
+       \* the document is cut inside its last element: the elements before it arrive complete
+       [] shape = "trunc"    -> [kind |-> "trunc", root |-> root, els |-> << El(k, "101", ""), El(k, "102", ""), El(k, "103", "") >>]
   ELSE
      CASE shape = "none"     -> [kind |-> "xml", root |-> root, els |-> << >>]
        [] shape = "one"      -> [kind |-> "xml", root |-> root, els |-> << El("node", "101", "create") >>]
@@ -358,7 +359,7 @@ BodyBase(ep, shape) ==
                                                                         El("node", "102", "delete"), El("way", "302", "delete") >>]
        [] shape = "garbage"  -> [kind |-> "garbage", root |-> root, els |-> << >>]
        [] shape = "empty"    -> [kind |-> "empty", root |-> root, els |-> << >>]
-       [] shape = "trunc"    -> [kind |-> "trunc", root |-> root, els |-> << El("node", "101", "create") >>]
+       [] shape = "trunc"    -> [kind |-> "trunc", root |-> root, els |-> << El("node", "101", "create"), El("way", "301", "modify"), El("node", "103", "delete") >>]
 Body(ep, shape, d) == d @@ BodyBase(ep, shape)
 
 (* ------------------------------ the machine ----------------------------- *)
@@ -411,6 +412,11 @@ NoNetInv     == (pc = "done" /\ (~OptsValid(c) \/ LimFailed(log))) => Gets(log) 
 \* until it is done terminates; Terminates is the same fact as a temporal property (under FairSpec)
 Progress     == (pc # "done") => ENABLED Next
 Terminates   == <>(pc = "done")
+
+\* Model only (the property does not say it; a mismatch is a DIVERGENCE, not a VIOLATION): a call that returns an
+\* error returns the zero value next to it (nil pointer / nil slice) - in particular nothing of a 200 document
+\* that turned out to be cut after some complete elements, and no empty placeholder document with a typed error.
+ZeroOnError(cls, zero) == (cls # "nil") => zero
 
 (* ------------- binding: what the recorder writes for a returned error ---- *)
 \* concrete Go type of the returned error |-> abstract class (the recorder prints %T verbatim)
